@@ -19,6 +19,8 @@ func runC05(c *Check, tier string) {
 	ruleR05b(c)
 	ruleR05c(c, "R05c")
 	ruleR05d(c, "R05d")
+	// fail-fast only stops work that runs on the walker's context
+	ruleR18b(c, "R05e")
 }
 
 // R05a: result written only on success
